@@ -70,6 +70,14 @@ def gen(chk, tier):
             g.one("mult_" + name, "sm.mult", p1=proj(rng, pt), k=b32(k))
     for L in [0, 1, 2, 5, 16, 31, 33, 40]:
         g.one("mult_length_%d" % L, "sm.mult", p1=proj(rng, ec.mul(rscalar(rng))), k=rb(rng, L))
+    # the two other variable-point multiplications the library keeps (double-and-add baseline, Montgomery ladder)
+    for alg in ("daa", "ladder"):
+        for name, pt in pts:
+            ks = list(special[:8]) + [rng.getrandbits(256) for _ in range(2 if q else 30)] + limb_structured(rng, 2 if q else 40)
+            ks += [rng.getrandbits(8 * L) for L in (1, 5, 31)]
+            for k in ks:
+                kb = b32(k) if k >= 1 << 248 or rng.random() < 0.7 else list(k.to_bytes(max(1, (k.bit_length() + 7) // 8), "big"))
+                g.one("mult_%s_%s" % (alg, name), "sm.mult", alg=alg, p1=proj(rng, pt), k=kb)
     # double-scalar: G side comb x P side signed 4-NAF
     for name, pt in pts[:6]:
         pairs = [(gk, sk) for gk in special[:7] for sk in (special[:7] if not q else special[:7:3])]
